@@ -576,7 +576,12 @@ func genCtrlCase(rng *Rng, mode string, cmdOK bool) (ctrlIn, []string) {
 	in.Avg0 = jF(avg0)
 	n := rng.Range(1, 40)
 	constCurve := -1
-	if mode == "stall" || mode == "const" {
+	if mode == "stallmax" {
+		constCurve = []int{0, 0, 3, 100, 200, 250, 255}[rng.Intn(7)]
+		if in.Kind != "hwmon" {
+			constCurve = []int{240, 250, 253, 254, 255}[rng.Intn(5)] // file/cmd fans have the full range: start near the top
+		}
+	} else if mode == "stall" || mode == "const" {
 		constCurve = rng.Range(0, 255)
 		if rng.Chance(1, 4) {
 			constCurve = 0
@@ -589,6 +594,27 @@ func genCtrlCase(rng *Rng, mode string, cmdOK bool) (ctrlIn, []string) {
 			in.Alg = "direct"
 		}
 		n = rng.Range(8, 40)
+		stallFrom = 0
+	}
+	if mode == "stallmax" { // a dead never-stop fan on a narrow PWM range: the walk to the maximum must end with the stall error
+		in.NeverStop, in.HasRpm = true, true
+		in.Alg = "direct"
+		if in.Kind == "hwmon" {
+			lo := rng.Range(0, 240)
+			hi := lo + rng.Range(0, 12)
+			in.CfgMin, in.MeasMin, in.CfgMax, in.MeasMax = nil, nil, nil, nil
+			if rng.Bool() {
+				in.CfgMin = ctrlPtr(lo)
+			} else {
+				in.MeasMin = ctrlPtr(lo)
+			}
+			if rng.Bool() {
+				in.CfgMax = ctrlPtr(hi)
+			} else {
+				in.MeasMax = ctrlPtr(hi)
+			}
+		}
+		n = rng.Range(30, 60)
 		stallFrom = 0
 	}
 	recoverAt := n / 2
@@ -610,7 +636,7 @@ func genCtrlCase(rng *Rng, mode string, cmdOK bool) (ctrlIn, []string) {
 		}
 		if in.HasRpm {
 			np := rng.Range(0, 3)
-			if mode == "stall" || mode == "recover" {
+			if mode == "stall" || mode == "recover" || mode == "stallmax" {
 				np = rng.Range(1, 3)
 			}
 			for j := 0; j < np; j++ {
@@ -620,6 +646,8 @@ func genCtrlCase(rng *Rng, mode string, cmdOK bool) (ctrlIn, []string) {
 					rpm = ctrlPtr(0)
 				case mode == "recover":
 					rpm = ctrlPtr(rng.Range(500, 3000))
+				case mode == "stallmax":
+					rpm = ctrlPtr(0)
 				case mode == "stall" && i >= stallFrom:
 					rpm = ctrlPtr(0)
 				case rng.Chance(1, 25):
@@ -722,7 +750,7 @@ func init() {
 		n := ctx.Param("n", 600)
 		modes := strings.Split(ctx.Params["modes"], ",")
 		if ctx.Params["modes"] == "" {
-			modes = []string{"random", "stall", "const", "ext", "fault", "recover"}
+			modes = []string{"random", "stall", "const", "ext", "fault", "recover", "stallmax"}
 		}
 		cmdEvery := ctx.Param("cmd", 1)
 		for i := 0; i < n; i++ {
